@@ -6438,8 +6438,20 @@ impl Nudge {
 
         assert!(smallest >= Unit::Day);
         let sign = balanced.get_sign_ranged();
-        let truncated = increment
-            * balanced.get_units_ranged(smallest).div_ceil(increment);
+        let mut units = balanced.get_units_ranged(smallest);
+        if smallest == Unit::Week {
+            // Unless weeks are the largest unit, a balanced span carries its
+            // whole weeks in its days. Count them here, so that the window
+            // used to compute progress below is the week the span ends in.
+            // (Otherwise, the progress through the *first* week is scaled
+            // up, which is only right when all weeks have the same length.
+            // They don't across a time zone transition.)
+            units = units
+                + balanced
+                    .get_units_ranged(Unit::Day)
+                    .div_ceil(t::DAYS_PER_CIVIL_WEEK);
+        }
+        let truncated = increment * units.div_ceil(increment);
         let span = balanced
             .without_lower(smallest)
             .try_units_ranged(smallest, truncated.rinto())
